@@ -662,6 +662,8 @@ def ex_stretch_private(c):
 
     def go():
         if c["kind"] == "window":
+            if c.get("target_default"):          # the documented default target is 0
+                return match_mod._integral_matching_stretch(x, y, **kw)
             return match_mod._integral_matching_stretch(x, y, integral_value=fl(c["target"]), **kw)
         if not c["valsnone"]:
             kw["integral_values"] = [fl(v) for v in c["values"]]
